@@ -67,8 +67,11 @@ func scriptsFor[V any](tname string, data func(seed int) []V) []script {
 			return fmt.Sprint(c.RankValues(d[0], d[1]), c.CompareValues(d[1], d[3]), c.RankValues(d[2], d[0]))
 		}},
 		{"String()", func(seed int) string {
+			// several calls per thread: all collections of one element type share the notation cached in their class
 			l := col.List[V](N()).MakeFromArray(data(seed))
-			return any(l).(fmt.Stringer).String()
+			l2 := col.List[V](N()).MakeFromArray(data(seed)[:2])
+			s := col.Set[V](N()).MakeFromArray(data(seed))
+			return any(l).(fmt.Stringer).String() + any(l2).(fmt.Stringer).String() + any(s).(fmt.Stringer).String()
 		}},
 		{"FormatValue-own-notation", func(seed int) string {
 			l := col.List[V](N()).MakeFromArray(data(seed))
